@@ -50,12 +50,22 @@ def run(chk):
         st = (c.get('cfg') or {}).get('style') or {}
         if st.get('bare_start') and '["ref", "R"]' not in json.dumps(c['g']['rules']['start']):
             # an unreferenced rule is dropped so that the description can be the bare expression alone
-            for extra in ('R', 'K', 'L', 'T', 'U'):
+            for extra in ('R', 'K', 'L', 'T', 'U', 'V'):
                 c['g']['rules'].pop(extra, None)
             keep = [i for i, r in enumerate(c['runs']) if r[0] == 'start']
             c['runs'] = [c['runs'][i] for i in keep]
             c['exp'] = [c['exp'][i] for i in keep]
             nbare += 1
+    # a bare expression is the rule `start`: it can also be entered as start.parse
+    via = []
+    for c in cases:
+        st = (c.get('cfg') or {}).get('style') or {}
+        if st.get('bare_start') and 'R' not in c['g']['rules'] and len(via) < 400:
+            c2 = dict(c, id=len(cases) + len(via))
+            c2['cfg'] = dict(c.get('cfg') or {}, via_rule=True)
+            via.append(c2)
+    cases += via
+    chk.notes['bare_expression_cases_entered_through_start_parse'] = len(via)
     chk.notes['bare_expression_cases'] = nbare
     chk.notes['chain_cases'] = nchain
     chk.notes['spelling_cases'] = len(cases) - nchain
